@@ -2,6 +2,7 @@
 From PegV Require Import Utf8 Utf8Facts State Terminals TerminalsSpec TerminalsOk Syntax Fields
   FieldsFacts GetFieldsFacts Literals LiteralsFacts Model Spec ShapeFacts ErrLog Sim Conform ConformX Extracted Real.
 From PegV Require Import CleanFrame UsualShape NoSentinel UsualShapeExamples.
+From PegV Require Local LocalConform.
 
 Theorem C10_facts :
   rec_le Extracted.scfg = true /\ Extracted.tcfg = term_cfg_expected /\
@@ -128,3 +129,23 @@ Theorem C10_no_sentinel_instance :
   fst (run_sum [120]%N) = MErr {| e_pos := 0; e_spec := ExpectedCharacterRange 48 57 |}.
 Proof. split; [exact sum_no_sentinel|exact sum_fails_with_a_real_error]. Qed.
 Print Assumptions C10_no_sentinel_instance.
+
+(* the furthest-failure clause for the unmarked part of ANY grammar (Local.v): a failing parse of a rule from
+   which no marked rule is reachable reports the furthest-latest failed attempt of the specification *)
+Theorem C10_furthest_clean_part :
+  forall (ustate : Type) (hk : hooks ustate) (shk : shooks) (g : grammar) (clean : name -> bool),
+    pure_hooks ustate hk shk ->
+    (forall n, clean n = true -> CleanFrame.rule_clean g clean n) ->
+    (forall n r, clean n = true -> find_rule g n = Some r -> CleanFrame.eclean clean (r_def r) = true) ->
+    clean n_Whitespace = true ->
+    forall fuel rule_name cs u e, clean rule_name = true -> all_scalar cs ->
+      fst (m_parse ustate Extracted.scfg Extracted.tcfg Extracted.fcfg Extracted.rcfg hk g
+                   fuel rule_name (encode_str cs) u) = MErr e ->
+      exists l, s_parse Extracted.fcfg shk (Local.unmarkb true g) true fuel rule_name cs = SFail l /\
+                Some e = furthest_latest None l.
+Proof.
+  intros ustate hk shk g clean Hp Hc Hi Hw fuel rule_name cs u e L Hs E.
+  pose proof (LocalConform.clean_conforms ustate hk shk g clean Hp Hc Hi Hw fuel rule_name cs u L Hs) as C.
+  rewrite E in C. exact C.
+Qed.
+Print Assumptions C10_furthest_clean_part.
